@@ -373,6 +373,8 @@ def class_rows_lean(kept, rows, chunk=96):
                 continue
             if roles != SHAPE_ROLES[shape]:
                 continue
+            if (f["prefix"] == "EVEX" and not int(r[4], 16) & 0x800000) or (f["prefix"] == "VEX" and not int(r[4], 16) & 0x400000):
+                continue      # database form of an encoding space the instruction table does not implement (e.g. AVX10.2 EVEX vmpsadbw)
             if int(r[4], 16) & 0x1000000:
                 continue      # kPreferEvex instructions (AVX_VNNI / IFMA): the VEX form needs the `vex` option - not covered by the class theorems
             kinds = []
